@@ -106,3 +106,35 @@ package bitswap
 //@   property C06
 //@   nopanic
 //@   requires options != nil
+
+// ---------------------------------------------------------------------------------------------
+// C10, serving side: the block a node produces for an identifier is filled from the accessor with
+// exactly the coordinates / row / namespace / range of that identifier, and with what the accessor
+// returned for them (a row half keeps the side the accessor says it is).
+//@ func (*SampleBlock).Populate
+//@   property C10
+//@   noframe
+//@   requires sb != nil
+//@   callpre Accessor).Sample: $arg2.Row == sb.ID.RowID.RowIndex && $arg2.Col == sb.ID.ShareIndex
+//@   checks err == nil ==> sb.Container == smpl
+
+//@ func (*RowBlock).Populate
+//@   property C10
+//@   noframe
+//@   requires rb != nil
+//@   callpre Accessor).AxisHalf: $arg2 == rsmt2d.Row && $arg3 == rb.ID.RowIndex
+//@   checks err == nil ==> rb.Container.shares == half.Shares && rb.Container.side == (half.IsParity ? shwap.Right : shwap.Left)
+
+//@ func (*RowNamespaceDataBlock).Populate
+//@   property C10
+//@   noframe
+//@   requires rndb != nil
+//@   callpre Accessor).RowNamespaceData: $arg2 == rndb.ID.DataNamespace && $arg3 == rndb.ID.RowID.RowIndex
+//@   checks err == nil ==> rndb.Container == rnd
+
+//@ func (*RangeNamespaceDataBlock).Populate
+//@   property C10
+//@   noframe
+//@   requires rndb != nil
+//@   callpre Accessor).RangeNamespaceData: $arg2 == rndb.ID.RangeNamespaceDataID.From && $arg3 == rndb.ID.RangeNamespaceDataID.To
+//@   checks err == nil ==> rndb.Container == rnd
